@@ -281,6 +281,33 @@ def _system(item):
         want = shadow.pid_sum_reference(df["bruttolohn_m"].tolist(), T[sp["p_id_to_aggregate_by"]].tolist(), df["p_id"].tolist())
         if not np.allclose(out[t].to_numpy().astype(float), np.array(want, dtype=float), rtol=1e-9, atol=1e-9):
             viol(f"{t}:user_over_builtin_p_id", f"user p_id spec for {t} (source bruttolohn_m) is not what was computed")
+    # one spec dict OBJECT registered under several names with different group suffixes (the way the package writes its own
+    # demographic aggregates): each name aggregates over its own level, and the caller's dicts stay as they were
+    import copy as _copy
+
+    levels = [l for l in ("hh", "fg", "bg", "eg", "ehe", "sn", "wthh") if f"{l}_id" in T.columns]
+    for aggr, src in (("max", "bruttolohn_m"), ("any", "rentner"), ("sum", "alter")):
+        shared = dict(aggr=aggr, source_col=src)
+        order = [levels[i] for i in rng.permutation(len(levels))]
+        uspec = {f"vf_shared_{aggr}_{l}": shared for l in order}
+        snap = _copy.deepcopy(uspec)
+        for rep in range(2):  # the second call re-uses the very same objects
+            try:
+                with warnings.catch_warnings():
+                    warnings.simplefilter("ignore")
+                    out = env.compute_taxes_and_transfers(df, params, functions, targets=list(uspec)[::-1] if rep else list(uspec),
+                                                          aggregate_by_group_specs=uspec)
+            except Exception as e:  # noqa: BLE001
+                viol(f"shared_spec:{type(e).__name__}", f"one spec dict shared by {list(uspec)} raises {type(e).__name__}: {str(e)[:150]}")
+                break
+            res["user_specs"] += 1
+            res["by_origin"]["shared_spec_object"] = res["by_origin"].get("shared_spec_object", 0) + 1
+            if uspec != snap:
+                viol("shared_spec:caller_dict_modified", f"the aggregation specs passed by the caller were modified by the call: {str(uspec)[:300]} (before: {str(snap)[:200]})")
+            T2 = T.copy()
+            for t in uspec:
+                T2[t] = out[t].to_numpy()
+                _check_group_node(T2, t, snap[t], viol, "user_shared_spec_object")
     # after the calls with user specs: the built-in definitions must be back (no spec leaks into later calls)
     agg_nodes = [t for t in nodes if kinds[t] in ("agg_group", "agg_pid")]
     try:
